@@ -141,7 +141,9 @@ var vfTagNames = []string{"a", "b", "i", "p", "div", "span", "table", "tr", "td"
 	"nobr", "font", "applet", "marquee", "object", "area", "wbr", "source", "image", "main", "address", "center",
 	"em", "strong", "big", "code", "tt", "u", "s", "small", "strike", "ruby", "rb", "rt", "rtc", "rp", "keygen",
 	"menuitem", "base", "basefont", "bgsound", "link", "meta", "param", "track", "embed", "details", "summary",
-	"dialog", "x-custom", "X", "label", "fieldset", "section", "article", "nav", "search", "hgroup"}
+	"dialog", "x-custom", "X", "label", "fieldset", "section", "article", "nav", "search", "hgroup",
+	"title-bar", "style-sheet", "script-loader", "textarea-autosize", "iframe-resizer", "xmp-viewer", "scrip", "titl", "sty", "scriptx",
+	"titlex", "stylex", "xmpx", "plaintextx", "noscript-x", "brx", "imgs", "inputx", "im"}
 
 var vfRawTags = []string{"script", "style", "textarea", "title", "xmp", "iframe", "noembed", "noframes", "noscript", "plaintext"}
 
@@ -631,13 +633,26 @@ var vfResetConstructs = []string{"<table></table>", "<table><table>", "<table>x<
 	"<table><caption>x</caption>", "<table><tr></tr><table>", "</template>", "<td></td><table></table>",
 	"<caption></caption>", "<select><table></table>", "<table><caption><select><tr></table>", "</select>"}
 
+// containers in which in-body rules apply while a table / select / template stays open above
+var vfNestContainers = []string{"", "<table><caption>", "<table>", "<table><tr><td>", "<table><tbody><tr><th>", "<table><caption><p>",
+	"<select>", "<template>", "<div>", "<table><tr><td><table><caption>", "<template><table><caption>"}
+
+// tokens for the OUTER open elements, sent after the reset construct: the insertion mode the
+// reset has chosen then sees tokens it would not normally see
+var vfNestFollow = []string{"</table>", "</tbody>", "</tr>", "</td>", "</caption>", "</select>", "</template>", "</th>", "</tfoot>",
+	"</thead>", "<tr>", "<td>", "<caption>", "x", "<tbody>", "<col>", "</svg>", "</math>", "<th>", "</body>", "</p>"}
+
 // foreignNested: inside <svg> / <math>, elements NAMED after special HTML elements (they are
 // foreign elements and get none of the HTML treatment, but name-based code may mistake them),
 // an HTML / MathML-text integration point beneath them, and then HTML constructs that make the
 // tree builder reset its insertion mode while those elements are still on the stack.
 func (g *vfGen) foreignNested() []byte {
 	var sb strings.Builder
-	sb.WriteString(g.pick([]string{"", "", "", "<!DOCTYPE html>", "<table>", "<table><tr><td>", "<select>", "<template>", "<p>", "<div>", "<body>", "<a>", "<b>"}))
+	if g.r.Intn(2) == 0 {
+		sb.WriteString(g.pick(vfNestContainers))
+	} else {
+		sb.WriteString(g.pick([]string{"", "", "<!DOCTYPE html>", "<p>", "<div>", "<body>", "<a>", "<b>"}))
+	}
 	math := g.r.Intn(2) == 0
 	if math {
 		sb.WriteString(g.pick([]string{"<math>", "<math>", "<MATH>", "<math><mrow>"}))
@@ -679,21 +694,61 @@ func (g *vfGen) foreignNested() []byte {
 			sb.WriteString(g.pick(vfResetConstructs))
 		}
 	}
+	for n := g.r.Intn(4); n > 0; n-- {
+		sb.WriteString(g.pick(vfNestFollow))
+	}
 	return []byte(sb.String())
 }
 
-// nestedSweep: the foreignNested shape enumerated instead of drawn: input j walks through every
-// name resetInsertionMode switches on (both foreign roots each), with the integration point and
-// the reset-triggering construct stepping at co-prime strides offset by the seed.
+// nestedSweep: the foreignNested shape enumerated instead of drawn.  The product
+//   reset name (15) x foreign root (2) x container (8) x reset construct (3) x closer of an outer element (2)
+// has 1440 combinations; input j of a run takes combination perm[j] of a permutation of 0..1439
+// drawn from the seed, so a run samples without repetition and 1440 inputs cover everything.  The
+// integration point and two more follow-up tokens rotate with j.
+type vfNestContainer struct {
+	open    string
+	closers []string // end tags of the elements it leaves open (outermost first)
+}
+
+var vfSweepContainers = []vfNestContainer{
+	{"<table><caption>", []string{"</table>", "</caption>"}},
+	{"<table><tr><td>", []string{"</table>", "</tr>"}},
+	{"<table><tbody><tr><th>", []string{"</tbody>", "</th>"}},
+	{"<table>", []string{"</table>", "</tbody>"}},
+	{"<table><caption><p>", []string{"</table>", "</p>"}},
+	{"<template>", []string{"</template>", "</table>"}},
+	{"<select>", []string{"</select>", "</table>"}},
+	{"", []string{"</body>", "</table>"}},
+}
+var vfSweepCons = []string{"<table></table>", "<table><tr><td>x</td></tr></table>", "<template></template>"}
+
+const vfSweepTotal = 15 * 2 * 8 * 3 * 2
+
+var vfSweepPerm []int
+var vfSweepSeed int
+
 func (g *vfGen) nestedSweep(j, seed int) []byte {
-	name := vfResetNames[(j/2+seed)%len(vfResetNames)]
+	if vfSweepPerm == nil || vfSweepSeed != seed {
+		vfSweepPerm, vfSweepSeed = rand.New(rand.NewSource(int64(seed)*7919+13)).Perm(vfSweepTotal), seed
+	}
+	x := vfSweepPerm[j%vfSweepTotal]
+	name := vfResetNames[x%15]
+	x /= 15
 	root, points := "<svg>", vfSvgPoints[:3]
-	if j%2 == 1 {
+	if x%2 == 1 {
 		root, points = "<math>", vfMathPoints[:7]
 	}
-	pre := []string{"", "", "<div>", "<table><tr><td>", "<template>", "<select>"}[(j/30+seed)%6]
-	return []byte(pre + root + "<" + name + ">" + points[(j/2+seed*7)%len(points)] +
-		vfResetConstructs[(j*5+seed*3)%len(vfResetConstructs)] + g.pick([]string{"", "x", "</" + name + ">", "<p>", "</svg>", "</math>"}))
+	x /= 2
+	cont := vfSweepContainers[x%8]
+	x /= 8
+	cons := vfSweepCons[x%3]
+	x /= 3
+	var sb strings.Builder
+	sb.WriteString(cont.open + root + "<" + name + ">" + points[(j+seed)%len(points)] + cons + cont.closers[x%2])
+	for i := 0; i < 2; i++ {
+		sb.WriteString(vfNestFollow[(j*7+seed*5+i*4)%len(vfNestFollow)])
+	}
+	return []byte(sb.String())
 }
 
 // input: the mixed population used by all three properties
@@ -991,6 +1046,21 @@ func vfElem(name string) *Node {
 	return &Node{Type: ElementNode, Data: name, DataAtom: atom.Lookup([]byte(name))}
 }
 
+// names NEAR the names the tokenizer, parser or renderer treat specially: extensions and proper
+// prefixes of the raw-text / RCDATA names and of the void names.  None of them is special itself:
+// they are unknown (custom) elements, i.e. ordinary.
+var vfRawNames = []string{"iframe", "noembed", "noframes", "noscript", "plaintext", "script", "style", "textarea", "title", "xmp"}
+var vfNearNames = func() []string {
+	out := []string{"title-bar", "style-sheet", "script-loader", "textarea-autosize", "iframe-resizer", "xmp-viewer",
+		"scrip", "titl", "sty", "textare", "ifram", "xm", "noembe", "noframe", "noscrip", "plaintex",
+		"brx", "imgs", "hrx", "inputx", "linkx", "metax", "areax", "wbrx", "colx", "embedx", "paramx", "sourcex", "trackx", "keygenx", "basex",
+		"im", "inpu", "lin", "met", "are", "wb", "embe", "para", "sourc", "trac", "keyge", "bas"}
+	for _, n := range vfRawNames {
+		out = append(out, n+"-x", n+"x", n+"1")
+	}
+	return out
+}()
+
 var vfBlocks = []string{"div", "section", "blockquote", "article", "ul"}
 var vfLeafBlocks = []string{"p", "h1", "h2"}
 var vfInlines = []string{"span", "b", "i", "em", "a", "code", "u", "strong", "small"}
@@ -1037,6 +1107,38 @@ func (g *vfGen) vfBuildTree() *Node {
 				parent.AppendChild(text())
 				lastText = true
 				continue
+			case x < 6 && g.r.Intn(3) == 0:
+				// an ordinary element whose name is near a special name, with text containing every
+				// escapable character and an element child
+				e := vfElem(g.caseMangle(g.pick(vfNearNames)))
+				attrs(e)
+				e.AppendChild(&Node{Type: TextNode, Data: g.escString(3) + g.pick([]string{"1 < 2 & \"q\" 'a' > 0", "&lt;b&gt;", "<b>x</b>", "a&amp;b", "</" + e.Data + ">", "x"})})
+				c := vfElem("b")
+				c.AppendChild(text())
+				e.AppendChild(c)
+				budget -= 2
+				parent.AppendChild(e)
+			case kind == 0 && x == 9 && g.r.Intn(2) == 0:
+				// foreign content: raw-text switching is suppressed there, also for the exact names
+				ns := g.pick([]string{"svg", "math"})
+				root := &Node{Type: ElementNode, Data: ns, DataAtom: atom.Lookup([]byte(ns)), Namespace: ns}
+				attrs(root)
+				budget--
+				for k2 := 1 + g.r.Intn(2); k2 > 0; k2-- {
+					name := g.pick(vfNearNames)
+					if g.r.Intn(3) == 0 {
+						name = g.pick(vfRawNames)
+					}
+					e := &Node{Type: ElementNode, Data: name, DataAtom: atom.Lookup([]byte(name)), Namespace: ns}
+					attrs(e)
+					e.AppendChild(text())
+					c := &Node{Type: ElementNode, Data: "g", DataAtom: atom.Lookup([]byte("g")), Namespace: ns}
+					c.AppendChild(text())
+					e.AppendChild(c)
+					root.AppendChild(e)
+					budget -= 2
+				}
+				parent.AppendChild(root)
 			case x < 6 || kind == 1 || depth >= 4:
 				name := g.pick(vfInlines)
 				if name == "a" && inA {
@@ -1156,6 +1258,27 @@ func TestVerifHtmlEsc(t *testing.T) {
 			})
 			if !vfEmitFault(env, tr, res) {
 				env.Emit(tr, map[string]any{"e": "esc", "s": vfIntsS(s), "o": vfIntsS(o), "u": vfIntsS(u)})
+			}
+		}
+		// token level: <name> EscapeString(s) </name> for an ordinary element name near a special one
+		for k := 0; k < 2 && !env.Hung; k++ {
+			name := g.caseMangle(g.pick(vfNearNames))
+			if r.Intn(6) == 0 {
+				name = g.pick([]string{"div", "span", "b", "p", "x-y", "em"})
+			}
+			s := g.escString(2 + r.Intn(8))
+			toks := []vfTokProj{}
+			res := vfCatchTimeout(10*time.Second, func() {
+				z := NewTokenizer(strings.NewReader("<" + name + ">" + EscapeString(s) + "</" + name + ">"))
+				for steps := 0; steps < 8; steps++ {
+					if z.Next() == ErrorToken {
+						break
+					}
+					toks = append(toks, vfProj(z.Token()))
+				}
+			})
+			if !vfEmitFault(env, tr, res) {
+				env.Emit(tr, map[string]any{"e": "et", "name": vfIntsS(name), "s": vfIntsS(s), "toks": toks})
 			}
 		}
 	}
@@ -1484,7 +1607,7 @@ func TestVerifHtmlTree(t *testing.T) {
 	n := env.Int("inputs", 120)
 	nlong := env.Int("long", 2)
 	ndeep := env.Int("deep", 1)
-	nnest := env.Int("nested", 60)
+	nnest := env.Int("nested", 240)
 	total := n + nlong + ndeep + nnest
 	for idx := 1; idx <= total && !env.Hung; idx++ {
 		r := env.Rand(int64(idx))
@@ -1523,10 +1646,15 @@ func TestVerifHtmlTree(t *testing.T) {
 			if !env.Only(tr) || env.Hung {
 				continue
 			}
+			if idx > n+nlong+ndeep && ci != 0 && ci != 2 {
+				continue // sweep inputs: document mode (scripting on) and one fragment context
+			}
 			var roots []*Node
 			var err error
 			rr := env.Rand(int64(tr)*7919 + 1)
-			res := vfCatchTimeout(10*time.Second, func() {
+			// each call in its own goroutine under a real-time watchdog: a Parse that does not return
+			// is logged as a hang event of this input (no spec action matches it) and ends the run
+			res := vfCatchTimeout(5*time.Second, func() {
 				opt := ParseOptionEnableScripting(c.script)
 				if !c.frag {
 					var doc *Node
